@@ -48,7 +48,8 @@ theorem Ckpt.run_facts {sch : Levels} {db dbN : Engine.DB} {sdb sdbN : Spec.SDB}
       (∀ r ∈ dbN.wal, AppliedC ptN sch tblsN r) ∧ (∀ r ∈ dbN.wal, r.lsn < dbN.store.hdr.nextLSN) ∧
       (dbN.store.hdr.nextLSN = db.store.hdr.nextLSN ∨ ∃ r ∈ logs, dbN.store.hdr.nextLSN = r.lsn + 1) ∧
       OldOrDirty (fun e => assocGet db.store.disk e.1 = some e.2.1) ptN sch tblsN ∧
-      dbN.store.disk = db.store.disk ∧ dbN.store.dhdr = db.store.dhdr := by
+      dbN.store.disk = db.store.disk ∧ dbN.store.dhdr = db.store.dhdr ∧
+      (∀ r ∈ dbN.wal, r.op = c_OpInsert → r.cell ≤ dbN.store.hdr.lastKey) := by
   obtain ⟨ptN, tblsN, stmtsM, logs, hrun, hw, hAN, hlogN, hlsnN, hnext, hP⟩ :=
     spec_run_ckpt sch run pt tbls h.abs h.log h.lsn (fun e => assocGet db.store.disk e.1 = some e.2.1)
       (fun x hx e he => .inr (h.disk x hx e he).1)
@@ -60,7 +61,7 @@ theorem Ckpt.run_facts {sch : Levels} {db dbN : Engine.DB} {sdb sdbN : Spec.SDB}
   have ept : ptN' = ptN := c1.pt_unique habsF.cat
   rw [ept] at hselfN
   exact ⟨ptN, tblsN, stmtsM, logs, hrun, hw, hAN, hselfN, hfN, specRun_memFiled run h.filed, hlogN, hlsnN, hnext,
-    hP, hd1, hd2⟩
+    hP, hd1, hd2, spec_run_keys sch run pt tbls h.abs h.keys⟩
 
 /-- **Checkpoint by flush.**  From a checkpointed database run any statements the plain model accepts,
 then flush (any page write order): the flush succeeds, the log is untouched, and the result is a
@@ -73,14 +74,14 @@ theorem Ckpt.flush_round_full {sch : Levels} {db dbN : Engine.DB} {sdb sdbN : Sp
       AbsV dbN.store ptL sch tblsL sdbN ∧ Ckpt sch db' sdbN (clean ptL) (cleanT tblsL) ∧
       db'.store.hdr = dbN.store.hdr := by
   obtain ⟨_, hcs, _⟩ := h.disk.clean_eq
-  obtain ⟨ptN, tblsN, _, _, _, _, hAN, hselfN, hfN, hmfN, hlogN, hlsnN, _, hP, hd1, _⟩ := h.run_facts run
+  obtain ⟨ptN, tblsN, _, _, _, _, hAN, hselfN, hfN, hmfN, hlogN, hlsnN, _, hP, hd1, _, hkN⟩ := h.run_facts run
   have hsy : Synced dbN.store ptN sch tblsN := by
     intro x hx e he hd
     rcases hP x hx e he with h1 | h1
     · rw [hd] at h1; cases h1
     · rw [hd1]; exact h1
   obtain ⟨s1, ef1, hh1, _⟩ := flushPages_spec order dbN.store hmfN
-  have hk := ckpt_of_flushed hcs hAN hselfN hfN hmfN hlogN hlsnN hsy ef1
+  have hk := ckpt_of_flushed hcs hAN hselfN hfN hmfN hlogN hlsnN hkN hsy ef1
   refine ⟨{ store := s1, wal := dbN.wal }, ptN, tblsN, ?_, rfl, hAN, hk, hh1⟩
   simp only [Engine.flush, Engine.liftS, ef1]
 
@@ -113,7 +114,7 @@ theorem Ckpt.replay_reopened {sch : Levels} {db dbN : Engine.DB} {sdb sdbN : Spe
       rN.hdr.nextFree = dbN.store.hdr.nextFree ∧ rN.hdr.lastKey = dbN.store.hdr.lastKey ∧
       rN.hdr.ptRoot = dbN.store.hdr.ptRoot ∧
       rN.hdr.nextLSN ≤ dbN.store.hdr.nextLSN ∧ dbN.store.hdr.nextLSN ≤ rN.hdr.nextLSN + 1 := by
-  obtain ⟨ptN, tblsN, stmtsM, logs, hrun, hw, hAN, _, _, _, hlogN, _, hnext, hP, hd1, hd2⟩ := h.run_facts run
+  obtain ⟨ptN, tblsN, stmtsM, logs, hrun, hw, hAN, _, _, _, hlogN, _, hnext, hP, hd1, hd2, _⟩ := h.run_facts run
   obtain ⟨_, habs0, _⟩ := h.abs
   obtain ⟨sdbF, habsF, hvF⟩ := hAN
   -- the re-opened data file holds the catalog of the checkpoint
@@ -122,6 +123,7 @@ theorem Ckpt.replay_reopened {sch : Levels} {db dbN : Engine.DB} {sdb sdbN : Spe
   -- the old records change nothing
   obtain ⟨r1, e1, _, hc1, hh1⟩ := replay_clean_hdr db.wal (reopen dbN.store) pt sch tbls hr0
     (fun r hr => (h.log r hr).applied hr0) (fun r hr => by rw [hh0]; exact Nat.le_of_lt (h.lsn r hr))
+    (fun r hr hop => by rw [hh0]; exact h.keys r hr hop)
   -- the new records are redone
   obtain ⟨ptN', rN, e, c1, c2, hselfN, hfN, a1, a2, a4⟩ := replay_history_mixed_gen sch hrun pt r1 habs0.cat hc1
     h.self h.fresh (by rw [hh1, hh0]) (by rw [hh1, hh0]) (by rw [hh1, hh0]; exact Nat.le_refl _)
@@ -183,6 +185,7 @@ theorem Ckpt.recover_round_full {sch : Levels} {db dbN : Engine.DB} {sdb sdbN : 
   obtain ⟨_, hcs, _⟩ := h.disk.clean_eq
   obtain ⟨ptN, tblsN, rN, eall, hAN, ⟨sdbF, habsR, hvF⟩, _, hselfN, hfN, hmfN, hsy, hlogN, hlsnR, a1, a2, a3, a4,
     hnx⟩ := h.replay_reopened run
+  obtain ⟨_, _, _, _, _, _, _, _, _, _, _, _, _, _, _, _, hkN⟩ := h.run_facts run
   -- the cache right before recovery's flush: the final LSN bump
   have hcB : Cat { rN with hdr := { rN.hdr with nextLSN := rN.hdr.nextLSN + 1 } } ptN sch tblsN :=
     habsR.cat.raise rfl rfl rfl (Nat.le_refl _)
@@ -191,7 +194,8 @@ theorem Ckpt.recover_round_full {sch : Levels} {db dbN : Engine.DB} {sdb sdbN : 
   obtain ⟨s1, ef1, hh1, _⟩ := flushPages_spec o1 _ hmB
   have hk1 := ckpt_of_flushed (wal := dbN.wal) hcs ⟨sdbF, ⟨hcB, habsR.tabs⟩, hvF⟩ hselfN
     (hfN.of_hdr hnx (by show _ ≤ rN.hdr.nextFree; rw [a1]; exact Nat.le_refl _)) hmB hlogN
-    (fun r hr => by show r.lsn < rN.hdr.nextLSN + 1; have := hlsnR r hr; omega) hsy ef1
+    (fun r hr => by show r.lsn < rN.hdr.nextLSN + 1; have := hlsnR r hr; omega)
+    (fun r hr hop => by show r.cell ≤ rN.hdr.lastKey; rw [a2]; exact hkN r hr hop) hsy ef1
   obtain ⟨s2, ef2, hh2, _⟩ := flushPages_spec o2 s1 hk1.filed
   have hk2 := hk1.flush_again ef2
   refine ⟨{ store := s2, wal := dbN.wal }, ptN, tblsN, ?_, rfl, hAN, hk2, ?_, ?_, ?_, ?_, ?_⟩
